@@ -307,11 +307,13 @@ theorem budget_stateless {g : Graph} (hwf : graphWF g = true) {ncls : Nat} {stor
 only (a) on the scan path — nobody of the scope finished the class and the state control reports a set state
 missing; neither earlier results nor executions in flight are looked at — or (b) by the rerun rule,
 `max_tries ≠ 1` and fewer counted results in the reuse scope (placeholders included) than `max_tries`.
-NOT proved (and false in general, see the witness below): a bound of `max(max_tries, 1)` on the number of
-executions per scope along runs.  The missing part is a bound on the number of scan-path starts, which needs
-the exclusion invariant of C04 (`#started copies in scope ≤ max(max_concurrent_tries, 1)` while nobody
-finished) under `max_concurrent_tries ≤ max(max_tries, 1)`, and the agreement of the scope filter on result
-names with the scope of `is_finished`. -/
+The run-level bound built on this rule is `budget_stateful` below (classes without object roots; the bound is
+`max(max_tries, 1, largest is_occupied threshold)`, which is `max(max_tries, 1)` when `max_concurrent_tries` is unset or
+within `max(max_tries, 1)` and no re-entrancy bump happened).  STILL NOT proved: object roots with `max_tries ≤ 1`
+(true by the same argument with the creations in flight counted as results-to-be: with `max_tries ≤ 1` the rerun rule
+never fires, and on the scan path creations and results together number at most the marks in scope); for object roots
+with `max_tries ≥ 2` the bound is false (`root_creation_hidden`), as it is for `max_concurrent_tries > max_tries`
+(witness below). -/
 theorem budget_stateful_partial (g : Graph) (s : State) (n w : Nat) (s1 : State) (evs : List Event)
     (hsets : (g.node n).sets.isEmpty = false) (h : runDecision g s n w = .ok (true, s1, evs)) :
     (isFinished g s n w 1 = false ∧ (scanStates g s n w).1 = true) ∨
@@ -500,6 +502,33 @@ theorem root_creation_hidden :
     ReachableR gRR 2 [] sRR ∧ statefulClass gRR 0 (some 2) .global = false ∧ mctWithin gRR 0 (some 2) = true ∧
     (inTestAt sRR 0 0 .pre = true ∧ inTestAt sRR 1 1 .pre = true ∧ classLen gRR sRR 0 = 0 ∧ classLimit gRR sRR 0 = 2) :=
   ⟨.step 1 _ 20 (.step 0 _ 20 (.init []) (by decide) (by decide)) (by decide) (by decide),
+   by decide +kernel, by decide +kernel, by decide +kernel⟩
+
+/-! Why a copy must be cared for by one worker only (`worker.id in params["name"]` is a substring test: `"net1"` occurs
+in the name of `net11`'s copy).  `net1` picks `net11`'s copy as if it were its own and starts the setup test on it; `net11`
+is not kept out (`own` scope: occupied only if `net11` itself holds the class), overwrites the `started` mark and starts the
+same copy again: two executions in flight on ONE copy, two results in `net11`'s own scope with `max_tries = 1`, threshold 1,
+no bump.  The real code does the same (`design.d/C03.md`: `net1` executes `net11`'s copy, the copy is executed three times). -/
+
+def gU : Graph :=
+  { workers := [{ id := "net11", swarm := "lh" }, { id := "net1", swarm := "lh" }],
+    nodes := [
+      { cls := 0, owner := some 0, name := "setup.vm1.lh.net11", pfx := "1a1", shape := .own,
+        sets := [("vm1", "s01")], objs := ["vm1"], setup := [(2, ["vm1"])] },
+      { cls := 0, owner := some 1, name := "setup.vm1.lh.net1", pfx := "1b1", shape := .own,
+        sets := [("vm1", "s01")], objs := ["vm1"], setup := [(2, ["vm1"])] },
+      { cls := 1, owner := none, name := "noop", pfx := "1", flat := true, sharedRoot := true,
+        cleanup := [(0, ["vm1"]), (1, ["vm1"])] }],
+    root := 2 }
+
+def sU : State := (resume gU (resume gU (initState gU 2 []) 1 { status := none } 20).1 0 { status := none } 20).1
+
+set_option maxRecDepth 100000 in
+theorem shared_copy_exceeds_budget :
+    ReachableR gU 2 [] sU ∧ statefulClass gU 0 none .own = false ∧ mctWithin gU 0 none = true ∧
+    (inTestAt sU 0 0 .plain = true ∧ inTestAt sU 1 0 .plain = true ∧
+      (sharedFilteredResults gU sU 0 (some 0)).length = 2 ∧ classLimit gU sU 0 = 1) :=
+  ⟨.step 0 _ 20 (.step 1 _ 20 (.init []) (by decide) (by decide)) (by decide) (by decide),
    by decide +kernel, by decide +kernel, by decide +kernel⟩
 
 end budget
